@@ -11,11 +11,17 @@ func propC16(c *Ctx, r *Report) {
 		"keyword tables (E1): the reserved-word table of each text backend is a statically evaluable literal that contains every reserved word of its target language in the reference lists (GLSL 4.60 keywords and reserved words; C++14 keywords plus the MSL address-space/stage keywords; HLSL keywords and reserved words)",
 		"helper reservation (E1): every identifier the backend itself defines in its output (naga_* / _naga_* tokens in emitted strings) is reserved in that backend's namer, or is a computed name that always ends in a digit (which no user name can, because the namers suffix such names)")
 	r.NotDecided = append(r.NotDecided,
-		"the namer's sanitising / uniquifying algorithm itself, scope resolution of references, case-insensitive clashes between two user names, non-ASCII escapes, the reported entry-point name mapping")
+		"the rest of the sanitising / uniquifying algorithm (character filtering, escapes, counters), scope resolution of references, case-insensitive clashes between two user names, the reported entry-point name mapping")
 	c.runKeywordTables(r, keywordTables)
 	c.runHelperReservation(r, helperSpecs)
 	r.Clauses = append(r.Clauses, "checked = emitted (E11): in every string-returning function that tests a spelling with a reserved-word predicate, the tested variable is the one returned or adjusted in the guarded branch (not the raw input of a sanitiser)")
 	c.runCheckedEmitted(r, "names.checked-emitted", inPkgs("hlsl", "msl", "glsl", "internal/backend"))
+	r.Clauses = append(r.Clauses, "sanitised bases (E19, go/cfg must-analysis): every value returned by a namer's sanitiser (the function whose result keys the uniqueness map) provably has no trailing underscore - the precondition under which the spellings B, B_ (digit-ending or reserved B) and B_N of the Rust-naga naming scheme are pairwise distinct")
+	c.runSanitizeNoTrail(r, "names.sanitize", inPkgs("hlsl", "msl", "glsl", "internal/backend"))
+	r.floor("names.sanitize.returns", 10)
+	r.Clauses = append(r.Clauses, "fresh names (E19 provenance): every spelling stored into a writer's entity-name table (types, members, functions, arguments, locals, globals, entry points, baked expressions, flattened entry-point parameters) comes from the namer, from another name table, or from one of the generated spellings frozen per table - never directly from an IR name or from a table of another scope")
+	c.runNameFresh(r, "names.fresh", inPkgs("hlsl", "msl", "glsl"))
+	r.floor("names.stores", 60)
 	r.floor("namecheck.sites", 4)
 	r.floor("tables.keywords.GLSL", 200)
 	r.floor("tables.keywords.MSL", 150)
